@@ -197,8 +197,7 @@ theorem moved_minimal {c c' : Cluster} (hI : Inv r c) (hm : MovedTo r r' c c') :
         exact absurd (by rw [hn', e1]) hn
 
 /-- where C13 says whose owner changes: a server ADDED to the list takes keys only for itself … -/
-theorem route_add (h : Bytes → Nat) {S S' : List Name} (x : Name) (key : Bytes) (nt : C13.NoTies h key S') (p : S'.Perm (x :: S))
-    (hne : S ≠ []) : routeOf h S' key = x ∨ routeOf h S' key = routeOf h S key := by
+theorem route_add (h : Bytes → Nat) {S S' : List Name} (x : Name) (key : Bytes) (nt : C13.NoTies h key S') (p : S'.Perm (x :: S)) : routeOf h S' key = x ∨ routeOf h S' key = routeOf h S key := by
   unfold routeOf
   rcases C13.C13_add h key x nt p with e | e
   · left; rw [e]; rfl
